@@ -209,6 +209,9 @@ func (m *Model) Written() *ref.File {
 
 // libToRef converts a library value into the reference representation.
 func libToRef(s *smf.SMF) (*ref.File, string) {
+	if s == nil {
+		return &ref.File{}, "nil value returned together with a nil error"
+	}
 	f := &ref.File{Format: s.Format(), NTracks: uint16(len(s.Tracks))}
 	switch tf := s.TimeFormat.(type) {
 	case smf.MetricTicks:
